@@ -266,3 +266,10 @@ func FlushAll() {
 		r.mu.Unlock()
 	}
 }
+
+// Tally counts a generator class without counting an evaluation (for side information such as "a foreign call preceded this case").
+func (r *Recorder) Tally(class string) {
+	r.mu.Lock()
+	r.classes[class]++
+	r.mu.Unlock()
+}
